@@ -324,6 +324,21 @@ func (c *canoner) walk(v reflect.Value, top bool) {
 // keyString renders a map key without touching the id table (keys are scalars / strings in the zoo;
 // anything else is rendered by a throw-away canoner).
 func keyString(k reflect.Value, o CanonOpts) string {
+	// a key that is itself a container (possible in a decoded map[interface{}]interface{}: a pointer to a
+	// map, even to the map that holds it) is rendered by type only: walking it here, without the caller's
+	// id table, would not terminate on cyclic keys
+	kk := k
+	for kk.IsValid() && kk.Kind() == reflect.Interface && !kk.IsNil() {
+		kk = kk.Elem()
+	}
+	if kk.IsValid() {
+		switch kk.Kind() {
+		case reflect.Ptr, reflect.Map, reflect.Slice, reflect.Array, reflect.Struct:
+			if kk.Type() != timeType {
+				return "<key:" + kk.Type().String() + ">"
+			}
+		}
+	}
 	c := &canoner{o: o, ids: map[canonKey]int{}, maxNodes: 100000}
 	c.walk(k, false)
 	return c.sb.String()
